@@ -495,6 +495,13 @@ theorem dead_operator_same_log (ops : List HubOp) (d : Nat) :
 /-! ### regenerated facts: the per-client lock and the write deadline -/
 
 open Gen.LockFacts in
+/-- regenerated (`Gen.TableWrites`): every assignment to these tables anywhere in the teamserver is an append at the end,
+    a delete of one index, the hand-out split, `nil` / an empty literal, or a slice built up freshly in a local - never a
+    re-slice to length 0 or a filter in place, whose later appends would overwrite what an earlier reader still holds.
+    The models' immutable lists are faithful to the Go slices only under this fact. -/
+theorem events_writes_value_like :
+    aliasingWrites ["EventsList"] = [] ∧ writtenTables ["EventsList"] = ["EventsList"] ∧ Gen.TableWrites.reslicesToZero = [] := by decide
+
 /-- the same on every control-flow path separately (regenerated `Gen.LockPaths`): no early return, branch or case of
     any of these functions leaves a mutex held that a `defer` does not release -/
 theorem server_locks_balanced_every_path : pathsUnbalancedIn ["server", "service"] = [] := by decide
